@@ -20,6 +20,14 @@ pub fn text_findings(data: &[u8]) -> Vec<Finding> {
     let text = String::from_utf8_lossy(data).to_string();
     let mut out = vec![];
     let k06 = known_for("C06");
+    // rejected by the reference and (C03 passes =>) by the parser: the other three oracles have nothing
+    // to say about a rejected text; skip their three extra parses
+    if crate::refparse::parse(&text).is_err() {
+        return match props::text::check_parse(&text, None) {
+            Verdict::Fail(sig, detail) => vec![("C03".to_string(), sig, detail)],
+            Verdict::Pass => vec![],
+        };
+    }
     let checks: [(&str, Verdict); 4] = [
         ("C03", props::text::check_parse(&text, None)),
         ("C02", props::text::check_assemble(&text)),
